@@ -975,6 +975,8 @@ def verify(cname, cfg, timeout_ms=20000, seed=0, repo_src=None, samples=0):
             if status != "proved":
                 rec["reason"] = reason or "the induction step does not follow"
                 rec["goal"] = lem.name
+            elif reason:
+                rec["second_backend"] = reason
             res.obligations.append(rec)
     if c.holder.__dict__.get("lemmas"):
         from . import induct
